@@ -178,3 +178,22 @@ func WithConfigFalse(kids []*S) []*S {
 	}
 	return out
 }
+
+// WithStateBelowTop returns a copy of the schema in which the top-level nodes stay configuration and
+// every node directly below a top-level container or list (the key leaf excepted; a choice as a whole)
+// is state data: config and state constraints meet in one tree.
+func WithStateBelowTop(kids []*S) []*S {
+	out := Clone(kids)
+	for _, top := range out {
+		if top.Kind != "container" && top.Kind != "list" {
+			continue
+		}
+		for i, k := range top.Kids {
+			if top.Kind == "list" && i == 0 && k.Kind == "leaf" && k.Name == top.Key {
+				continue
+			}
+			k.Config = "false"
+		}
+	}
+	return out
+}
